@@ -33,6 +33,7 @@ import Mdsort.Model.L0.Util
 import Mdsort.Model.L0.Buffer
 import Mdsort.Model.Start
 import Driver.Sched
+import Mdsort.Model.Opts
 
 /-!
 Line-protocol driver: one request per line `<side> <op> <hexarg>*`, one response
@@ -148,6 +149,16 @@ def handleSpec (op : String) (args : List Bytes) : Option String :=
     match Spec.parts Model.entity (Gen.mimeDepthLimit + 1) e with
     | none => some "NONE"
     | some ps => some (s!"P{ps.length}" ++ String.join (ps.map fun p => " " ++ dumpTable p ++ "|" ++ dumpBody (Spec.decodedBody Model.entity Gen.mimeDepthLimit p)))
+  | "partsrfc", [m] =>
+    -- the parts a reader of RFC 2045 sees (boundary parameter in any position, token or quoted-string): judges finding F30
+    let e := Model.parseMessage m
+    match Spec.partsRFC Model.entity (Gen.mimeDepthLimit + 1) e with
+    | none => some "NONE"
+    | some ps => some (s!"P{ps.length}" ++ String.join (ps.map fun p => " " ++ dumpTable p ++ "|" ++ dumpBody (Spec.decodedBody Model.entity Gen.mimeDepthLimit p)))
+  | "bparamrfc", [ct] =>
+    some (match Spec.boundaryParamRFC ct, Spec.boundaryParam ct with
+      | a, b => (match a with | .none => "NONE" | .bad => "BAD" | .some x => "B" ++ toHex x) ++ " " ++
+                (match b with | .none => "NONE" | .bad => "BAD" | .some x => "B" ++ toHex x))
   | "body", [m] =>
     let e := Model.parseMessage m
     if !Proofs.BoundaryOk (Gen.mimeDepthLimit + 1) e then some "NOTWF" else
@@ -771,6 +782,45 @@ def handleLex (args : List Bytes) : String :=
       | _ => "BADREC")
   | _ => "BADOP"
 
+/-! ### the command line (Model/Opts.lean) -/
+
+/-- `hex` / `~` (absent) -/
+def optHexT : Option Bytes → String
+  | none => "~"
+  | some b => Driver.hex b
+
+def argsAnswer (r : Except Model.ArgsErr Model.Opts) : String :=
+  match r with
+  | .error .usage => "USAGE"
+  | .error (.macroSeparator a) => s!"MACROSEP {Driver.hex a}"
+  | .error (.macroInvalid n) => s!"MACROINV {Driver.hex n}"
+  | .ok o =>
+    let b (x : Bool) := if x then "1" else "0"
+    s!"OK d={b o.dryrun} n={b o.syntaxOnly} s={b o.stdinMode} f={optHexT o.confpath} v={o.verbosity} D" ++
+      String.join (o.defs.map fun (n, v) => s!" {Driver.hex n}={Driver.hex v}")
+
+/-- One line per value: `hex`, `-` (empty) or `~` (absent). -/
+def optLine (s : String) : Option (Option Bytes) :=
+  if s == "~" then some none else (Driver.unhex s).map some
+
+/-- conformargs <permute 0|1> <argv: one hex word per line> <raw environment: HOME, pw_dir, TMPDIR, TZ, _PATH_TMP - one per line>
+<env> <configuration text> <files> <devs> <stdin> <trace>: the run of `Model.mainArgs` along the observed trace.  The paths and the
+mode words of `<env>` are ignored: they are computed from argv and the raw environment. -/
+def handleConformArgs (args : List Bytes) : String :=
+  match args with
+  | [perm, argvB, rawB, envB, confText, filesB, devsB, input, traceB] =>
+    let argv : Option (List Bytes) := (Driver.lines argvB).mapM Driver.unhex
+    let raw : Option Model.RawEnv :=
+      match (Driver.lines rawB).mapM optLine with
+      | some [home, pwdir, tmpdir, tz, some pathTmp] => some { home := home, pwdir := pwdir, tmpdir := tmpdir, tz := tz, pathTmp := pathTmp }
+      | _ => none
+    match argv, raw with
+    | some argv, some raw =>
+      conformWith envB filesB devsB input traceB fun env _ orc files =>
+        some (Model.mainArgs (perm == [49]) argv raw env orc rxOkFFI confText files input, false)
+    | _, _ => "BADARGS"
+  | _ => "BADOP"
+
 def handleMsg (side op : String) (args : List Bytes) : Option String :=
   match side, op, args with
   | "M", "hparse", [m] => some (dumpTable (Model.parseMessage m))
@@ -802,6 +852,8 @@ def handleMsg (side op : String) (args : List Bytes) : Option String :=
   | "M", "conform", as => some (handleConform as)
   | "M", "conformtext", as => some (handleConformText as)
   | "M", "parties", as => some (handleParties as)
+  | "M", "conformargs", as => some (handleConformArgs as)
+  | "M", "args", perm :: argv => some (argsAnswer (Model.parseArgs (perm == [49]) argv))
   | "M", "lex", as => some (handleLex as)
   | "M", "conf", as => some (Driver.Conf.handle rxOkFFI as)
   | "M", "confprint", as => some (Driver.Conf.handlePrint rxOkFFI as)
